@@ -389,7 +389,9 @@ META = {
              "break, continue and return anywhere (no code after a jump statement in the same block unless it is labelled), "
              "local ARRAYS of integers (`T a[n];`, `x = a[i];`, `a[i] = e;` with any index expression: out-of-bounds index or a read of an "
              "element without value = undefined; the element address is `(unsigned long)i * sizeof *a` added to the one allocation of the "
-             "array, elements laid out in its bytes); the expressions of assignments, initialisers, expression statements, `return`, "
+             "array, elements laid out in its bytes), ARRAY INITIALISERS `T a[n] = {e0, [3] = e3, e4};` (positional and designated "
+             "in increasing order, zeros for the other elements: funcinit's address-value-store per element and zero()'s stores), "
+             "`sizeof` of objects and types as constants of type unsigned long; the expressions of assignments, initialisers, expression statements, `return`, "
              "the conditions of if/while/do/for, the controlling expression of switch and stored array values may READ ARRAY "
              "ELEMENTS and CALL FUNCTIONS anywhere inside (a[i] and f(args) with pure index/arguments, under casts, unary minus, "
              "binary operators, &&, ||, ?: - except an array read in the first operand of ?:, which condexpr constant-folds); "
@@ -418,7 +420,7 @@ META = {
              "slot, spills it and loads through it from the CALLER's allocation - proved inside lower3_correct* (the entry function "
              "itself has no array parameter: hypothesis hpw; the same hypothesis on lower2_correct*).  Outside F1/F2/programs (floats, "
              "pointers other than the implicit one of a subscripted local array and these read-only array parameters, writes through "
-             "pointers, `&`/`*` as operators, pointer arithmetic, array initialisers, nested subscripts/calls inside "
+             "pointers, `&`/`*` as operators, pointer arithmetic, designators out of order or repeated, initialisers in braces for scalars, nested subscripts/calls inside "
              "an index or an argument, side effects inside expressions, aggregates, bit-fields, goto, indirect and variadic calls, "
              "non-scalar initialisers, "
              "VLAs, unreachable code after a jump) "
